@@ -19,7 +19,7 @@ from . import sbx_translate as T1
 from .sbx_translate import Untranslatable, q
 
 OBJECT_ROOTS = {"self", "eval_ctx", "environment"}
-VALUE_METHODS = {"split", "isdigit"}
+VALUE_METHODS = {"split", "isdigit", "isdecimal"}
 PLAIN_FUNCS = {"getattr_static", "formatter_field_name_split", "get_eval_context", "int", "postprocess"}
 
 
@@ -442,7 +442,7 @@ Section Parts.
     if String.eqb f ".split" then
       match args with [PStr s; PStr d] => if String.eqb d "." then ([], Norm (PTuple (map PStr (split_dot s)))) else ([], Exc "NameError")
                  | _ => ([], Exc "TypeError") end
-    else if String.eqb f ".isdigit" then
+    else if String.eqb f %(pp_digit)s then
       match args with [PStr s] => ([], Norm (PBool (isdigit s))) | _ => ([], Exc "TypeError") end
     else if String.eqb f "int" then
       match args with [PStr s] => ([], Norm (PInt (to_int s))) | _ => ([], Exc "TypeError") end
@@ -557,6 +557,10 @@ def emit(src_root):
     d["pp_attr"] = q(t["prepare_parts"]["params"][0])
     # the comprehension of _prepare_attribute_parts: element expression and variable, for the induction lemma
     import re
+    md = re.search(r'\(EIfExp \(ECall "(\.isdigit|\.isdecimal)"', t["prepare_parts"]["body"])
+    if not md:
+        raise Untranslatable("_prepare_attribute_parts: the integer test of a part is neither isdigit() nor isdecimal()")
+    d["pp_digit"] = q(md.group(1))
     m = re.search(r'\(EListComp (.*) "([A-Za-z_0-9]+)" \(ECall "\.split"', t["prepare_parts"]["body"])
     if not m:
         raise Untranslatable("_prepare_attribute_parts: no list comprehension over attr.split('.')")
